@@ -25,7 +25,7 @@ var interpretedStd = map[string]bool{
 	"math": true, "math/bits": true, "hash/fnv": true, "unicode/utf8": true, "strings": true, "errors": true,
 	"unicode": true, "hash": true, "internal/bytealg": true, "slices": true, "cmp": true, "internal/stringslite": true,
 	"internal/itoa": true, "container/list": true, "internal/byteorder": true, "hash/crc32": true, "math/rand": false,
-	"internal/race": true, "unicode/utf16": true, "iter": true,
+	"internal/race": true, "unicode/utf16": true, "iter": true, "time": true,
 }
 
 // std packages whose init is executed
